@@ -29,7 +29,8 @@ RULE += (
     "attribute assignment, like builtin and extension types). A sixth convention: yield async_call.asynq(f) "
     "from a task driven by asyncio. Every second cell makes its replacements RETURN a future object "
     "(ConstFuture / lazy Future), which every convention must pass on untouched and uncomputed. Replacement "
-    "kind asynq_fn (an @asynq() generator function given as new) is held to the statement's four conventions."
+    "kind asynq_fn (an @asynq() generator function given as new) is held to the statement's four conventions. "
+    "Calls pass keywords named fn, mock_fn and args besides y."
 )
 ASSUMPTIONS = ["unittest.mock itself is trusted"]
 UNIT_TIMEOUT = {"quick": 200, "thorough": 600}
